@@ -89,6 +89,7 @@ func runC02(c *Ctx) {
 	c.r026(pk)
 	c.r027(pk)
 	c.r029(pk)
+	c.r0210(pk)
 	c.R.Rule("R02.8", "R01.3 restricted to renamer.rename: every save `p := m.renamer.rename` is followed, on every path from the later assignment of the switch to a function exit, by the restore `m.renamer.rename = p` — a leaked `on` lets the rest of an enclosing function that contains `with` be renamed")
 	c.r013(pk, "R02.8", map[string]bool{"rename": true})
 }
@@ -939,4 +940,42 @@ func (c *Ctx) r029(pk *packages.Package) {
 	}
 	c.R.Check(propagated || consults == sites, rule, "js/with in a nested function disables renaming in the enclosing functions", "-", fmt.Sprintf("%d switch sites; propagation or nested-with predicate present", sites),
 		fmt.Sprintf("the renaming switch is computed from the function's own HasWith flag at %d sites and nothing propagates the flag to enclosing functions: `function g(abc){return function(o){with(o){return abc}}}` becomes `function g(e){return function(o){with(o)return e}}` — inside the with, `e` is looked up on o first", sites))
+}
+
+// R02.10: bindings move into the enclosing scope only where they cannot clash there.
+func (c *Ctx) r0210(pk *packages.Package) {
+	const rule = "R02.10"
+	c.R.Rule(rule, "when an if-body ends in a jump, optimizeStmtList drops the `else` and splices the else-block's statements into the enclosing list; the block's let/const/class bindings are moved to the enclosing scope with Scope.Unscope. Inside a renamed function the renamer then gives them names that clash with nothing. Where names are kept — the top level, KeepVarNames, a function with `with` — the moved binding keeps its name and can collide with a declaration of the enclosing scope (`let x=1;if(a){throw 1}else{let x=2;g(x)}` → `let x=1;if(a)throw 1;let x=2;g(x)`, a redeclaration error) or capture its uses (`…else{let x=2}h(x)`: h now receives the block's x). Every call of (*js.Scope).Unscope is therefore dominated by a test that looks at the names involved or at the renaming switch: a call taking the scope (or its Declared list), or a comparison of Var names")
+	info := pk.TypesInfo
+	n := 0
+	for _, fd := range load.FuncDecls(pk) {
+		if fd.Body == nil {
+			continue
+		}
+		calls := findCalls(info, fd.Body, false, pjs+".(Scope).Unscope")
+		if len(calls) == 0 {
+			continue
+		}
+		g := c.graph(pk, fd)
+		for _, call := range calls {
+			n++
+			y := g.NodeOf(call)
+			recv := nospace(str(call.Fun.(*ast.SelectorExpr).X))
+			good := false
+			if y != nil {
+				for _, f := range g.DomFacts(y) {
+					if f.Test.Kind != flow.KCond {
+						continue
+					}
+					s := nospace(str(f.Test.Expr))
+					if strings.Contains(s, recv) && strings.Contains(s, "(") && !strings.Contains(s, "isFlowStmt") || strings.Contains(s, ".rename") || strings.Contains(s, "KeepVarNames") {
+						good = true
+					}
+				}
+			}
+			c.R.Check(good, rule, fmt.Sprintf("js.%s/%s.Unscope()#%d only where no name can clash", load.FuncName(fd), recv, n), c.pos(call), "behind a test of the names or of the renaming switch",
+				"the bindings of a dissolved else-block are moved into the enclosing scope unconditionally: where names are not renamed (top level, KeepVarNames) they collide with or capture names of that scope — `let x=1;if(a){throw 1}else{let x=2;g(x)}` → `let x=1;if(a)throw 1;let x=2;g(x)`")
+		}
+	}
+	c.R.Floor(rule, "calls of Scope.Unscope", n, 1)
 }
